@@ -127,6 +127,7 @@ class Part:
     budget_s: Dict[str, float] = field(default_factory=lambda: {"quick": 120.0, "thorough": 1500.0})
     exhaustive: bool = False  # enum parts: True when the items are a complete finite space
     shard: bool = True  # False: run only in shard 0
+    self_sharded: bool = False  # enum parts: items(ctx) already yields only this shard's slice
 
     @property
     def kind(self) -> str:
@@ -143,6 +144,7 @@ class Ctx:
         self.part = ""
         self.evaluations = 0
         self.nontrivial: set = set()
+        self.nontrivial_keys: set = set()  # fast path for huge enumerations (keys are shard-disjoint by construction)
         self.classes: Counter = Counter()
         self.trivial: Counter = Counter()
         self.samples: Dict[str, Any] = {}
@@ -162,10 +164,12 @@ class Ctx:
     def q(self, quick, thorough):
         return quick if self.tier == "quick" else thorough
 
-    def record(self, case: Any, nontrivial: bool, labels=(), why_trivial: str = "") -> None:
+    def record(self, case: Any, nontrivial: bool, labels=(), why_trivial: str = "", key: Any = None) -> None:
         self.evaluations += 1
         self.part_counts[self.part] += 1
-        if nontrivial:
+        if nontrivial and key is not None:
+            self.nontrivial_keys.add(key)
+        elif nontrivial:
             self.nontrivial.add(digest(case))
         else:
             self.trivial[why_trivial or "trivial"] += 1
@@ -207,6 +211,7 @@ class Ctx:
                     return
         if self.target is not None:
             if b == self.target:
+                self.last_target_case = case
                 raise _TargetHit()
             return
         size = len(canon(case))
@@ -287,7 +292,7 @@ def run_part(ctx: Ctx, part: Part) -> None:
         n = 0
         complete = True
         for i, case in enumerate(part.items(ctx)):
-            if part.shard and i % ctx.nshards != ctx.shard:
+            if part.shard and not part.self_sharded and i % ctx.nshards != ctx.shard:
                 continue
             if ctx.out_of_time():
                 complete = False
@@ -317,6 +322,21 @@ def run_part(ctx: Ctx, part: Part) -> None:
     t()
 
 
+def _hits(ctx: Ctx, part: Part, bucket: str, case: Any) -> bool:
+    """Does this explicit case fail in the given bucket? (used by module-level minimisers)"""
+    probe = Ctx(ctx.prop, ctx.tier, ctx.seed, ctx.shard, ctx.nshards)
+    probe.predicates, probe.known = ctx.predicates, ctx.known
+    probe.target = bucket
+    probe.part = part.name
+    try:
+        _guarded(probe, part, case)
+    except _TargetHit:
+        return True
+    except HarnessError:
+        return False
+    return False
+
+
 def shrink_bucket(ctx: Ctx, part: Part, failure: Dict[str, Any], budget_s: float) -> Dict[str, Any]:
     """Collect-then-shrink: rediscover the bucket with Hypothesis' shrinker on, keep the smallest case."""
     if part.kind != "given":
@@ -337,9 +357,10 @@ def shrink_bucket(ctx: Ctx, part: Part, failure: Dict[str, Any], budget_s: float
         try:
             _guarded(probe, part, case)
         except _TargetHit:
-            size = len(canon(case))
+            sub = getattr(probe, "last_target_case", case)  # the (sub-)case the oracle actually judged
+            size = len(canon(sub))
             if size < best["size"]:
-                best["case"], best["size"] = case, size
+                best["case"], best["size"] = sub, size
             return True
         except HarnessError:
             return False
@@ -409,6 +430,11 @@ def run_shard(prop: str, tier: str, seed: int, shard: int, nshards: int, out: st
     pmap = {p.name: p for p in parts}
     for b, f in list(ctx.failures.items())[:6]:
         shrunk[b] = shrink_bucket(ctx, pmap[f["part"]], f, budget)
+        if hasattr(mod, "minimize"):
+            try:
+                shrunk[b] = mod.minimize(ctx, pmap[f["part"]], shrunk[b], lambda case, _b=b, _p=pmap[f["part"]]: _hits(ctx, _p, _b, case))
+            except Exception:  # minimisation is best effort
+                pass
     for b, f in ctx.failures.items():
         shrunk.setdefault(b, f)
     if hasattr(mod, "teardown"):
@@ -416,6 +442,7 @@ def run_shard(prop: str, tier: str, seed: int, shard: int, nshards: int, out: st
     res = {
         "evaluations": ctx.evaluations,
         "nontrivial": sorted(ctx.nontrivial),
+        "nontrivial_keys": len(ctx.nontrivial_keys),
         "classes": dict(ctx.classes),
         "trivial": dict(ctx.trivial),
         "samples": ctx.samples,
@@ -536,6 +563,7 @@ def run_parent(prop: str, tier: str, seed: int, replay: Optional[str], shards_ov
     merged = {
         "evaluations": 0,
         "nontrivial": set(),
+        "nontrivial_keys": 0,
         "classes": Counter(),
         "trivial": Counter(),
         "samples": {},
@@ -557,6 +585,7 @@ def run_parent(prop: str, tier: str, seed: int, replay: Optional[str], shards_ov
         r = json.load(open(out))
         merged["evaluations"] += r["evaluations"]
         merged["nontrivial"].update(r["nontrivial"])
+        merged["nontrivial_keys"] += r.get("nontrivial_keys", 0)
         for key in ("classes", "trivial", "excluded_known", "inconclusive", "part_counts"):
             merged[key].update(r[key])
         for k, v in r["samples"].items():
@@ -592,7 +621,7 @@ def run_parent(prop: str, tier: str, seed: int, replay: Optional[str], shards_ov
 
     # 4. evidence
     wall = time.time() - t0
-    n_nt = len(merged["nontrivial"])
+    n_nt = len(merged["nontrivial"]) + merged["nontrivial_keys"]
     samples = [dict(label=k, **{kk: _trim(vv) if kk == "case" else vv for kk, vv in v.items()}) for k, v in list(merged["samples"].items())[:10]]
     exhaustive_parts = [k for k, v in merged["exhaustive"].items() if v]
     evidence = {
